@@ -5,6 +5,7 @@ R5.2 loop protocol of DESolver.solve (typestate over the loop-body CFG)
 R5.3 built-in iterators pass dt through (shared with C06's interpreter)
 R5.4 cursor discipline in unflattenX / size bookkeeping in Coupler.flattenX
 R5.5 time window set by GenericModel.setTimeInfo / solve
+R5.6 the default unflattenX returns a copy of the reference state (container type preserved)
 """
 from __future__ import annotations
 import ast
@@ -180,6 +181,25 @@ def r52_loop(repo, ctx, lo, hi, solve, names, init_nodes):
     if cur is None or stop is None:
         ctx.violation('R5.2', SOLVER, q, loop, 'loop test is not a conjunction of (currTime < tf) and (not stop)', construct=U.src(test))
         return
+    extra = [c for c in conj if not ((isinstance(c, ast.Compare) and tf in U.names_in(c) and cur in U.names_in(c))
+                                     or (isinstance(c, ast.UnaryOp) and isinstance(c.op, ast.Not) and isinstance(c.operand, ast.Name) and c.operand.id == stop))]
+    ctx.check(not extra, 'R5.2', SOLVER, q, loop, 'the loop has no exit other than currTime reaching tf or a stop request',
+              f'the loop test has a further conjunct ({U.src(extra[0]) if extra else ""}): when it fails the run ends before tf although no stop was requested',
+              construct='solve: extra loop exit')
+    def _exits(stmts):
+        for st in stmts:
+            if isinstance(st, (ast.Break, ast.Return)):
+                yield st
+            elif isinstance(st, (ast.For, ast.While)):
+                yield from (x for x in _exits(st.body + st.orelse) if isinstance(x, ast.Return))
+            elif not isinstance(st, (ast.FunctionDef, ast.ClassDef)):
+                for fld in ('body', 'orelse', 'finalbody'):
+                    yield from _exits(getattr(st, fld, None) or [])
+                for h in getattr(st, 'handlers', None) or []:
+                    yield from _exits(h.body)
+    jumps = list(_exits(loop.body))
+    ctx.check(not jumps, 'R5.2', SOLVER, q, jumps[0] if jumps else loop, 'no break / return leaves the loop body',
+              'a break / return inside the loop body ends the run before tf although no stop was requested', construct='solve: jump out of the loop')
     ctx.check(strict, 'R5.2', SOLVER, q, loop, 'loop runs while currTime < tf (strict) and not stop',
               'loop test uses <=: at currTime == tf the remaining time is 0 and the loop cannot make progress', construct=U.src(test))
     # initial values
@@ -450,7 +470,40 @@ def _loop_cursor_check(ctx, path, q, func, flat_param, rule='R5.4'):
     return n_checked
 
 
+def r56_container(repo, ctx):
+    """R5.6: the default unflattenX hands the callbacks a state with the nested structure the model supplied: what it returns is a
+    copy of the reference state (whose items it replaces), not a container of a fixed type built from scratch"""
+    q = 'GenericModel.unflattenX'
+    f = repo.func(GM, q)
+    ref = U.params(f)[2] if len(U.params(f)) >= 3 else None
+    rets = [n for n in U.walk_no_nested(f) if isinstance(n, ast.Return) and n.value is not None]
+    if ref is None or not rets:
+        ctx.undecided('R5.6', GM, q, f, 'expected unflattenX(self, X_flat, X_ref) returning the rebuilt state')
+        return
+    n = 0
+    for r in rets:
+        v = r.value
+        if isinstance(v, ast.Name):
+            binds = [a for a in U.walk_no_nested(f) if isinstance(a, ast.Assign) and any(isinstance(t, ast.Name) and t.id == v.id for t in a.targets)]
+            if len(binds) == 1:
+                v = binds[0].value
+        fixed = isinstance(v, (ast.List, ast.ListComp, ast.Tuple, ast.Dict, ast.DictComp, ast.GeneratorExp)) or \
+            (isinstance(v, ast.Call) and (U.call_name(v) or '') in ('list', 'tuple', 'np.array', 'np.asarray', 'dict'))
+        copyish = isinstance(v, ast.Call) and ((U.call_name(v) or '') in ('copy.copy', 'copy.deepcopy', 'copy', 'deepcopy', f'{ref}.copy', f'type({ref})')
+                                               or (isinstance(v.func, ast.Call) and (U.call_name(v.func) or '') == 'type')) and ref in U.names_in(v)
+        n += 1
+        if fixed:
+            ctx.violation('R5.6', GM, q, r, f'unflattenX returns a container built from scratch ({U.src(v)[:70]}): a model whose state is not of that type (an array of scalars, a '
+                          'tuple, ...) receives a differently structured state in getdXdt / correctdXdt / postProcess', construct='unflattenX: container type')
+        elif copyish:
+            ctx.ok('R5.6', GM, q, r, f'the returned state is a copy of the reference state {ref} with its items replaced', construct='unflattenX: container type')
+        else:
+            ctx.undecided('R5.6', GM, q, r, f'origin of the returned container not recognised: {U.src(v)[:70]}')
+    ctx.floor('R5.6', n, 1)
+
+
 def r54_cursors(repo, ctx):
+    r56_container(repo, ctx)
     n = 0
     for q in ('GenericModel.unflattenX', 'Coupler.unflattenX'):
         f = repo.func(GM, q)
